@@ -267,7 +267,7 @@ Proof. cbv zeta. split; [apply exact_coverb_spec|]; vm_compute; auto. Qed.
    (Model/SelCrit.v: selection_criteria.py + _combination_selection_criteria / _get_error_metrics; real-number
    instance, Proofs/SelCritProofs.v; the float instance Model/SelCritF.v is what the correspondence runs).
    Kept at the end of the file: a failure here leaves the theorems above counted. *)
-From Coq Require Import Reals.
+From Coq Require Import Reals Lra.
 From V Require Import Model.Num Model.NumR Model.SelCrit Proofs.SelCritProofs.
 Local Open Scope R_scope.
 
